@@ -140,7 +140,13 @@ def _canon(x):
     return x
 
 
-def wellformed_tier_snap(s):
+def wellformed_times(s):
+    """well-formed as far as times go (order, no overlap, inside the span).  The tier-operation properties use this one: an operation
+    is judged on a receiver whose labels carry padding as well - it has to hand the labels on as they are."""
+    return wellformed_tier_snap(s, labels=False)
+
+
+def wellformed_tier_snap(s, labels=True):
     """The model's notion of a well-formed tier (does not call praatio.validate)."""
     es = s["entries"]
     lo, hi = s["min"], s["max"]
@@ -154,7 +160,7 @@ def wellformed_tier_snap(s):
                     return False
                 if prev_end is not None and st < prev_end:
                     return False
-                if lab != lab.strip():
+                if labels and lab != lab.strip():
                     return False
                 prev_end = en
         else:
@@ -164,7 +170,7 @@ def wellformed_tier_snap(s):
                     return False
                 if prev is not None and t < prev:
                     return False
-                if lab != lab.strip():
+                if labels and lab != lab.strip():
                     return False
                 prev = t
     except (TypeError, ValueError, AttributeError):
